@@ -96,7 +96,7 @@ ExecUnit(es, u) ==
           ELSE IF u.query /\ es.out # <<>> /\ ~Fits(es, <<59>>)
                THEN Abort(es1, Exactly(-225, 0), TRUE)                 \* C11: the unit separator does not fit
           ELSE IF pl.missing THEN Abort(es1, Exactly(-109, 0), FALSE)  \* C06: missing parameter
-          ELSE IF h.res.code # 0 THEN Abort(es1, Exactly(h.res.code, h.res.ext), FALSE)  \* C05: handler-raised error
+          ELSE IF h.res # [code |-> 0, ext |-> 0] THEN Abort(es1, Exactly(h.res.code, h.res.ext), FALSE)  \* C05: handler-raised error (an Err(NoError ...) is a failure too)
           ELSE IF u.query /\ HasBadItem(h) THEN Abort(es1, AnyErr, FALSE)                 \* C05/C10: a datum that cannot be formatted fails the unit,
                                                                                           \* whatever is written after it
           ELSE IF u.query /\ ~Fits(es, seg) THEN Abort(es1, Exactly(-225, 0), FALSE)  \* C11: response does not fit
